@@ -43,9 +43,13 @@ theorem tie_model_mergeable :
     (∀ v2, ((intDomOf 5 v2).map (·.mergeable)) = some false) := by
   refine ⟨rfl, ?_, ?_, ?_, ?_, ?_⟩ <;> intro v2 <;> cases v2 <;> rfl
 
-/-- first sweep: levels ascending calling MergeUpdate; second: levels descending calling update();
-    each level iterated forward; needUpdate consulted first (else the extractor fails). -/
-theorem tie_passes : C12.passes = [(true, "MergeUpdate", true), (false, "update", true)] := by decide
+/-- loop directions of both sweeps: first sweep levels ascending, each level FORWARDS, calling MergeUpdate; second
+    sweep levels descending, each level BACKWARDS (`for j := len-1 .. 0`, fix 4d8d1bf), calling update() - i.e. the
+    model's `levels.flatten` and `sweep2 levels`; needUpdate consulted first (else the extractor fails). -/
+theorem tie_passes : C12.passes = [(true, "MergeUpdate", true), (false, "update", false)] := by decide
+
+/-- … and `sweep2` is that order: last level first, every level last element first. -/
+theorem tie_sweep2_order : sweep2 [[1, 2], [3, 4, 5]] = [5, 4, 3, 2, 1] := by decide
 
 theorem tie_cached_value : C12.mergeWriteCachesWritten = true ∧ C12.mergeSkipCachesOld = true := by decide
 
